@@ -1,8 +1,9 @@
 /-
   Props/C08.lean — C08: forward schedules are tight; dates encode used capacity.
   PARTIAL: the no-idle-days clause is proved when no task that has children carries a dependency link (finding KF-S3;
-  links stored on both ends, clock or project start not before 1970-01-01), the encoding clause when every clock
-  reading lies on a day before the project start day (finding KF-S6); the WBS-order clause is proved for every WBS
+  links stored on both ends, clock or project start not before 1970-01-01); the encoding clause is proved as stated,
+  for every clock that is not later than the project start (the finding KF-S6 was repaired: the end is clamped to the
+  clock only once the clock is later than the project start); the WBS-order clause is proved for every WBS
   that is a forest with consistent parent pointers and symmetric links (what C01 gives for reachable graphs); the
   removal clause (balancing off) is proved for tasks that take part in no dependency (`C08_removal_free_partial`: their
   dates are a function of their own data, their calendar, the project start and the clock) and rests on the
@@ -28,9 +29,9 @@ theorem C08_noIdle_partial (env : Env) (f0 : Uid → Fields) (res0 : List (Optio
   exact C08.noIdle_partial env f0 res0 o hf hc hs ho hl he h
 
 /-- start = first work day's midnight + share booked before the task, end = last work day's midnight + share booked
-    up to and including the task -/
-theorem C08_encode_partial (env : Env) (f0 : Uid → Fields) (res0 : List (Option Nat × Cal)) (o : Output)
-    (hf : env.flagsOK) (hc : env.clockOK) (hb : ∀ k, dayOf (env.clock k) < dayOf env.bound)
+    up to and including the task; claimed, as the statement does, when the clock is not later than the project start -/
+theorem C08_encode (env : Env) (f0 : Uid → Fields) (res0 : List (Option Nat × Cal)) (o : Output)
+    (hf : env.flagsOK) (hc : env.clockOK) (hb : ∀ k, env.clock k ≤ env.bound)
     (h : forwardCalc env f0 res0 = .ok o) : c08Encode env f0 o = true := by
   have _ := hf
   have _ := hc
@@ -76,17 +77,6 @@ theorem C08_noIdle_full_fails :
       | .ok o => c08NoIdle Witness.kfS3C08Env Witness.kfS3C08F0 o == false
       | .error _ => false) = true := by decide +kernel
   cases hr : forwardCalc Witness.kfS3C08Env Witness.kfS3C08F0 Witness.kfS3C08Res with
-  | ok o => rw [hr] at h; exact ⟨o, rfl, by simpa using h⟩
-  | error e => rw [hr] at h; cases h
-
-/-- the full encoding statement fails with the clock on the project start day (findings/KF-S6-C08.json) -/
-theorem C08_encode_full_fails :
-    ∃ o, forwardCalc Witness.kfS6C08Env Witness.kfS6C08F0 Witness.kfS6C08Res = .ok o ∧
-      c08Encode Witness.kfS6C08Env Witness.kfS6C08F0 o = false := by
-  have h : (match forwardCalc Witness.kfS6C08Env Witness.kfS6C08F0 Witness.kfS6C08Res with
-      | .ok o => c08Encode Witness.kfS6C08Env Witness.kfS6C08F0 o == false
-      | .error _ => false) = true := by decide +kernel
-  cases hr : forwardCalc Witness.kfS6C08Env Witness.kfS6C08F0 Witness.kfS6C08Res with
   | ok o => rw [hr] at h; exact ⟨o, rfl, by simpa using h⟩
   | error e => rw [hr] at h; cases h
 
